@@ -53,19 +53,6 @@ theorem nextBar_eq (s : MeanAbsoluteDeviation F) (b : Bar F) : s.nextBar b = s.n
   unfold nextBar
   cases h : s.next b.close <;> simp
 
-/-- `reset` rebuilds exactly the state `new` builds (state equality: any history, any values) -/
-theorem reset_eq (s : MeanAbsoluteDeviation F) (h : WF s) : s.reset = some (fresh s.period) := by
-  unfold reset
-  simp [fill_all _ _ _ h.size, fresh]
-
 theorem period_fn_eq (s : MeanAbsoluteDeviation F) : s.period_fn = s.period := rfl
-
-theorem display_eq (fmt : F → String) (s : MeanAbsoluteDeviation F) :
-    display fmt s = "MAD(" ++ toString s.period ++ ")" := rfl
-
-theorem default_eq : (default_ : Option (MeanAbsoluteDeviation F)) = some (fresh 9) := by
-  unfold default_
-  rw [new_eq]
-  simp [unwrap, isizeMax]
 
 end TaRs.Gen.MeanAbsoluteDeviation
